@@ -83,6 +83,25 @@ def corrupt(d, rng, depth=0):
     return rng.choice(junk)
 
 
+def null_variants(w, rng, limit=3):
+    """explicit nulls: one value of one mapping (any depth) replaced by None.  A present key always wins, so for a nullable
+    position the result is None whatever the default, for any other position the decoder of that position decides."""
+    spots = []
+
+    def go(x, rebuild):
+        if isinstance(x, dict):
+            for k in x:
+                if x[k] is not None:
+                    spots.append(lambda k=k, x=x, rebuild=rebuild: rebuild({**x, k: None}))
+                go(x[k], lambda z, k=k, x=x, rebuild=rebuild: rebuild({**x, k: z}))
+        elif isinstance(x, list):
+            for i, y in enumerate(x):
+                go(y, lambda z, i=i, x=x, rebuild=rebuild: rebuild(x[:i] + [z] + x[i + 1:]))
+    go(w, lambda z: z)
+    rng.shuffle(spots)
+    return [f() for f in spots[:limit]]
+
+
 class Tables:
     def __init__(self):
         self.render = {}
@@ -332,7 +351,7 @@ def make_cases(rng, n_schemas: int, per_schema: int, depth: int = 3, foreign: in
                 # exactly one nested sequence too short: trailing defaults of THAT NamedTuple or an error, nothing else
                 inputs = [w] + truncations(w)
             else:
-                inputs = [w] + [corrupt(w, rng) for _ in range(foreign)]
+                inputs = [w] + [corrupt(w, rng) for _ in range(foreign)] + null_variants(w, rng, 2)
                 if vi == 0 and t.kind in ("nt", "td", "tuplefix"):
                     inputs += [rng.choice(["", "1", "12", "abc"]), rng.choice([None, 7, {}, {"k0": 1}, []])]
             for d in inputs:
